@@ -1,7 +1,7 @@
 import os, sys, hashlib, itertools
 from vf import Check, Stream, VERIF, BUILD, sh
 
-MON_NAMES = {1: 'timers (once per interval / not before due / least due time first)',
+MON_NAMES = {1: 'timers (once per interval / not before due / least due time first / the loop never sleeps past a due time)',
              2: 'life times and registrations (callback for a dead or unregistered object, event kind not registered)',
              3: 'failed read/write must be followed by onClosed before the next wait or dispatch',
              4: 'interrupt/run (run returned without interrupt, or kept waiting although interrupted)'}
@@ -310,6 +310,84 @@ def case_random(rng, big=False):
     return g.ops
 
 
+def case_announce(rng, big=False):
+    """onAccepted/onConnected scripts that remove the client they announce (before/after reading, writing, suspending it; with
+    and without handing a callback object back), then events, failed io and removals for that client and its neighbours"""
+    g = Gen(rng, nt=1, nc=2, nl=2, ne=2)
+    for i in g.l:
+        g.ops.append('listen %d' % i)
+    for i in g.e:
+        g.ops.append('connect %d' % i)
+    for i in g.c:
+        if rng.random() < 0.6:
+            g.ops.append('pair %d' % i)
+    news = []
+
+    def acts(n):
+        a = []
+        for _ in range(rng.randrange(0, 3)):
+            a.append(rng.choice(['read %d' % n, 'write %d 3' % n, 'suspend %d' % n, 'resume %d' % n, 'timer 0 2', 'interrupt',
+                                 'rmclient %d' % rng.choice(g.c), 'write %d 2' % rng.choice(g.c), 'rmlistener %d' % rng.choice(g.l)]))
+        if rng.random() < 0.75:
+            a.insert(rng.randrange(0, len(a) + 1), 'rmclient %d' % n)
+            if rng.random() < 0.3:
+                a.append(rng.choice(['rmclient %d' % n, 'read %d' % n, 'write %d 1' % n]))
+        return a
+
+    for _ in range(rng.randrange(1, 5)):
+        if rng.random() < 0.6:
+            news.append(g.intro('l%d' % rng.choice(g.l), 'accepted', acts, acc=rng.random() < 0.8))
+        else:
+            news.append(g.intro('e%d' % rng.choice(g.e), 'connected', acts, acc=rng.random() < 0.8))
+    for n in news:
+        for _ in range(rng.randrange(0, 3)):
+            g.on('c%d' % n, rng.choice(['read', 'closed', 'write']), rng.choice([[], ['read %d' % n], ['rmclient %d' % n], ['write %d 2' % n]]))
+    if rng.random() < 0.5:
+        g.ops.append('recvq ' + ' '.join(rng.choice(['w', 'z', 'e', '3']) for _ in range(3)))
+    if rng.random() < 0.5:
+        g.ops.append('sendq ' + ' '.join(rng.choice(['w', 'e', '0', '1', '100']) for _ in range(3)))
+    ents = ['l%d' % i for i in g.l] + ['e%d' % i for i in g.e]
+    for _ in range(rng.randrange(1, 3)):
+        items = [g.item(rng.sample(ents, rng.randrange(1, len(ents) + 1)), dt=0) for _ in range(rng.randrange(1, 3))]
+        pool = ['c%d' % n for n in news] + ['c%d' % i for i in g.c]
+        items += [g.item(rng.sample(pool, rng.randrange(1, len(pool) + 1))) for _ in range(rng.randrange(1, 4))]
+        g.ops.append('run ' + ' '.join(items))
+    return g.ops
+
+
+def case_late(rng, big=False):
+    """timers created where the loop has already decided how long to sleep: in onClosed (closing pass), next to timers created
+    in onRead/onWrite/onActivated and at top level; failed reads/writes bring the clients into the closing set"""
+    nc = rng.randrange(1, 4)
+    g = Gen(rng, nt=6, nc=nc, nl=0, ne=0)
+    for i in range(nc):
+        g.ops.append('pair %d' % i)
+    t = 0
+    if rng.random() < 0.5:
+        g.ops.append('timer %d %d' % (t, rng.choice(IVS + [50, 400000])))
+        t += 1
+    for i in range(nc):
+        where = rng.choice(['closed', 'closed', 'closed', 'read', 'write'])
+        fail = rng.choice(['read %d' % i, 'write %d 2' % i])
+        g.on('c%d' % i, 'read', [fail] + (['timer %d %d' % (t, rng.choice(IVS))] if where == 'read' else []))
+        if where == 'read':
+            t += 1
+        mk = ['timer %d %d' % (t, rng.choice(IVS + [30]))] if where == 'closed' else []
+        if mk:
+            t += 1
+            if rng.random() < 0.3:
+                mk.append('timer %d %d' % (t, rng.choice(IVS)))
+                t += 1
+        g.on('c%d' % i, 'closed', mk + rng.choice([['rmclient %d' % i], ['rmclient %d' % i], []]))
+    g.ops.append('recvq ' + ' '.join(rng.choice(['z', 'e', 'z', 'w']) for _ in range(nc)))
+    g.ops.append('sendq ' + ' '.join(rng.choice(['e', '0', 'w', '100']) for _ in range(nc)))
+    ents = ['c%d' % k for k in range(nc)]
+    items = [g.item(rng.sample(ents, rng.randrange(1, nc + 1)), dt=rng.choice([0, 0, 1]))]
+    items += [g.item([], dt=rng.choice([0, 1, 2, 5, 30, 60])) for _ in range(rng.randrange(1, 5))]
+    g.ops.append('run ' + ' '.join(items))
+    return g.ops
+
+
 def cases_exhaustive():
     """small exhaustive scope: two clients and a timer; client 0's onRead runs every sequence of at most two actions of a
     fixed alphabet, both orders of the two clients in the epoll result"""
@@ -327,17 +405,6 @@ def cases_exhaustive():
     return out
 
 
-def contradictory(case):
-    """the use the property text does not cover: a client removed from inside the onAccepted/onConnected
-    that announces it, and the same callback nevertheless hands a callback object for it"""
-    for l in case:
-        t = l.split()
-        if len(t) > 5 and t[0] == 'on' and t[2] in ('accepted', 'connected') and t[4] == '1':
-            if ('rmclient %s' % t[3]) in l:
-                return True
-    return False
-
-
 SMOKE = [
     ['timer 1 10', 'timer 2 10', 'pair 1', 'on t1 act 0 0 / rmtimer 2 / write 1 5', 'sendq 2', 'on c1 read 0 0 / read 1', 'recvq z',
      'on c1 closed 0 0 / rmclient 1', 'run 10 0:c1=3 5:c1=1'],
@@ -348,6 +415,10 @@ SMOKE = [
     ['pair 1', 'pair 2', 'pair 3', 'on c1 read 0 0 / rmclient 2 / rmclient 1', 'on c3 read 0 0 / suspend 3 / interrupt', 'run 0:c1=1,c2=1,c3=1 0:c3=1',
      'pair 4', 'run 0'],
     ['pair 1', 'interrupt', 'interrupt', 'run 5', 'run 0:c1=1'],
+    # a client removed by the onAccepted that announces it although that callback hands a callback object back (fixes/C14/01)
+    ['listen 0', 'on l0 accepted 5 1 / rmclient 5', 'on c5 closed 0 0', 'on c5 read 0 0', 'run 0:l0=1 0:c5=1 0'],
+    # a timer created in onClosed: the loop must not sleep past its due time (fixes/C14/02)
+    ['pair 1', 'on c1 read 0 0 / read 1', 'recvq z', 'on c1 closed 0 0 / timer 0 1 / rmclient 1', 'run 0:c1=1 7'],
     # a client that stays readable while it has a send backlog (level-triggered): the write readiness must be served
     ['pair 1', 'sendq w', 'write 1 5', 'on c1 read 0 0 / read 1', 'on c1 read 0 0 / read 1', 'recvq 3 3', 'run 0:c1=3 0:c1=3 0:c1=1'],
 ]
@@ -390,7 +461,7 @@ def undelivered(case, obs):
             items = runs[nrun] if nrun < len(runs) else []
             nrun += 1
             k = 0
-        elif t[0] == 'removed':
+        elif t[0] in ('removed', 'deferred'):
             expect.pop(t[1], None)
         elif t[0] == 'introret' and t[2] == '0':
             expect.pop(t[1], None)
@@ -441,8 +512,9 @@ class C14(Check):
                   'epoll results and send/recv/accept/SO_ERROR outcomes the log of the model is accepted by four monitors that are the reading of '
                   'the property text (ServerLoopSpec: timers / life times, registrations and event kinds / failed read-write answered by onClosed / '
                   'interrupt and run), and what acceptance means is proved on the raw log: the (n+1)-th activation of a timer is the one due at '
-                  'creation + (n+1)*interval, is not early, and no live timer is due earlier; no callback after remove() (also from inside callbacks and '
-                  'with a buffered event; Poll::set/remove prune); dispatched kinds are registered kinds; a failed read/write is followed by onClosed '
+                  'creation + (n+1)*interval, is not early, and no live timer is due earlier; the loop never waits past a due time (time-out taken '
+                  'after everything that can create timers); no callback after remove() (also from inside callbacks, with a buffered event, and for '
+                  'the client removed by the very onAccepted/onConnected that announces it; Poll::set/remove prune); dispatched kinds are registered kinds; a failed read/write is followed by onClosed '
                   'before the next wait/dispatch; run() returns only after interrupt(), and once interrupted the next wait is the last. '
                   'The model is tied to the code by running the extracted model and the real Server (ASan/UBSan build of the working tree, '
                   'kernel simulated by symbol interposition, private state read for the state line) on the same histories, line by line; '
@@ -453,9 +525,8 @@ class C14(Check):
                   'Validated by correspondence only: insertion order among EQUAL due times; the 64-event limit of epoll_wait is outside the model '
                   '(generators stay below it); DNS-resolver establishers, the Windows/poll() variants of Socket::Poll and real cross-thread timing of '
                   'interrupt() (modelled as the flag being set at an arbitrary point: before run, from any callback, or while the loop waits) are not '
-                  'modelled. A client removed inside the onAccepted/onConnected that announces it while that callback still returns a callback object is '
-                  'contradictory use: the code keeps it and later reports onClosed; such cases are run for correspondence but not judged by the monitor. '
-                  'Trusted: Coq kernel, ServerLoopSpec (the monitors), extraction + OCaml driver, the harness and its simulated kernel.')
+                  'modelled. Lateness caused by the duration of callbacks themselves (the time-out is relative to the clock sampled at the start of the '
+                  'iteration) is outside the timer clause. Trusted: Coq kernel, ServerLoopSpec (the monitors), extraction + OCaml driver, the harness and its simulated kernel.')
     technique = 'Coq proof (invariants + monitor coupling by induction over fuel and histories) + extracted-model/monitor vs implementation correspondence on a simulated kernel'
     rule = ('cases = histories of top-level operations (create/remove timers, clients, listeners, establishers; write/read/suspend/resume/interrupt/clock), '
             'queued callback behaviours (remove others / self, create, write, read, suspend, interrupt) and run() calls with scripted epoll items; streams: '
@@ -466,7 +537,6 @@ class C14(Check):
     assumptions = ['level-triggered epoll: a ready registered descriptor and a readable event descriptor are reported by every epoll_wait (fairness of the simulated kernel)',
                    'at most 63 ready sockets per epoll_wait (the 64-entry event array is not modelled)',
                    'timer intervals > 0 and finite callback scripts for termination of a loop iteration (not needed for the safety theorems)',
-                   'remove() is not called on the client being announced by an onAccepted/onConnected that then returns a callback object for it',
                    'identities of removed objects are never reused by the test (pool slots may be)']
 
     def __init__(self):
@@ -486,6 +556,8 @@ class C14(Check):
         out.append(Stream('pending', [case_pending(rng, th) for _ in range(200 * m)], note='many sockets ready in one round, removal/re-registration while an event is buffered'))
         out.append(Stream('io', [case_io(rng, th) for _ in range(150 * m)], note='failed reads/writes, backlog, hang-ups'))
         out.append(Stream('interrupt', [case_interrupt(rng, th) for _ in range(100 * m)], note='interrupt before/during run'))
+        out.append(Stream('announce', [case_announce(rng, th) for _ in range(120 * m)], note='clients removed by the onAccepted/onConnected that announces them'))
+        out.append(Stream('late', [case_late(rng, th) for _ in range(100 * m)], note='timers created in onClosed / other callbacks; the loop must not sleep past a due time'))
         out.append(Stream('random', [case_random(rng, th) for _ in range(200 * m)]))
         if th:
             out.append(Stream('scope', cases_exhaustive(), exhaustive=True,
@@ -523,8 +595,10 @@ class C14(Check):
                 fails.append((i, 0, 'implementation: ' + bad[0]))
                 continue
             v = ver.get(i, (0, 0, '-'))
-            if v[0] != 0 and not contradictory(c):
-                fails.append((i, v[1], 'monitor %d rejects the implementation\'s log at event %d `%s`: %s' % (v[0], v[1], v[2].replace('_', ' '), MON_NAMES[v[0]])))
+            if v[0] != 0:
+                # the head of the reason (80 characters) tells the groups of failures apart: monitor and kind of the rejected event
+                head = ('[monitor-%s rejects a `%s` event]' % ('TRCI'[v[0] - 1], v[2].split('_')[0])).ljust(82, '.')
+                fails.append((i, v[1], head + ' monitor %d rejects the implementation\'s log at event %d `%s`: %s' % (v[0], v[1], v[2].replace('_', ' '), MON_NAMES[v[0]])))
                 continue
             u = undelivered(c, o)
             if u:
